@@ -39,7 +39,7 @@ Definition remark (c : lcase) (x : inst) : inst :=
   end.
 
 Definition expected (c : lcase) (K : nat) : list (list (inst * N)) :=
-  number_groups (map (map (remark c)) (prescribed (lc_play c) (rspec c) K)) [].
+  number_groups (map (map (remark c)) (prescribed (lc_script c) (rspec c) K)) [].
 
 Definition row_of (led : list lrow) (xn : inst * N) : option lrow :=
   find_row led (i_actor (fst xn), i_action (fst xn)) (snd xn).
@@ -158,7 +158,7 @@ Definition c05_oracle_mask (c : lcase) : N :=
  (N.add (bit (negb hard && (lc_spot c <? 3)%N && negb exit0) 8%N)
  (N.add (bit (extra || wrong_count) 16%N)
  (N.add (bit (repeat_time_bad c K) 32%N)
-        (bit (failok_bad c) 64%N)))))).
+        (bit (failok_bad c || negb (play_eqb (lc_play c) (lc_script c))) 64%N)))))).
 
 Definition c05_oracle_bad (c : lcase) : bool := negb (c05_oracle_mask c =? 0)%N.
 
